@@ -260,6 +260,11 @@ func propC11(w *World, r *Report) {
 	} else {
 		r.Unknown("H1", "throttle pass-through", "-", err.Error())
 	}
+	if dd := getDetector(w); dd.Err == nil {
+		checkProcessorStartArgs(w, r, dd, "H1") // the background frame / threshold stored in each file are the detector's, read at the start
+	} else {
+		r.Unknown("H1", "processor start arguments", "-", dd.Err.Error())
+	}
 	checkHeaderInfoGetters(w, r)
 	checkConfigMapping(w, r)
 	checkParserSelection(w, r, ci2)
